@@ -38,7 +38,9 @@ latitude.  Every use is counted (``lat_*`` counters):
    empty mailbox): BAD/NO or OK are all fine (``lat_oor_ok/refused``); if OK,
    exactly the in-range addressed messages are affected.
 3. Absolute UID values are free (C04 owns them): only ascending order and
-   stability while the message stays in the mailbox are checked.
+   stability while the message stays in the mailbox are checked.  (A message
+   that LEFT the mailbox and is listed again under its old UID is not UID
+   policy but wrong mailbox content: ``expunged-uid-resurrected``.)
 4. ``\\Recent`` is stripped from every comparison and never stored (C17).
 5. INTERNALDATE without a date-time in APPEND: anything (adopted from the first
    dump).  With one: the same instant (both sides parsed, compared in UTC).
@@ -56,6 +58,25 @@ latitude.  Every use is counted (``lat_*`` counters):
 A step that violates the model ends the case (no cascades), except a refusal
 of a valid command that verifiably left everything unchanged: the model then
 follows the server and the program continues.
+
+Case parameters besides the program: backend (dict / maildir / maildir with a
+``dovecot-keywords`` file so that ``$Forwarded`` and ``kw1`` are permitted),
+and the time zone the server process runs in (``TZ``; a quarter of the cases
+use a zone with DST or a non-UTC offset -- INTERNALDATE is compared as an
+instant, so the zone must not matter).
+
+Mechanism ids are computed from the witness: which command, which relation
+failed, and -- when 'the wrong messages were addressed' -- which part of the
+sequence set explains the difference (``blame``).  Two diagnoses are confirmed
+by an experiment before they are reported: an unexpected ``\\Seen`` is blamed on
+the dump's own ``BODY.PEEK[..]`` only if a fresh message gains ``\\Seen`` from
+one more dump; a short dump is blamed on ``*`` only if ``UID FETCH
+1:4294967295`` returns the complete list.
+
+Scripted triggers: ``{'script': 'cmds', 'backend': .., 'seed': 1, 'cmds':
+[..]}`` (optional ``tz``, ``kwfile``) runs the given command lines (latin-1,
+no tag; a trailing ``{msg}`` is replaced by a literal with a fresh message)
+through the same model and oracle after ``LOGIN`` and ``CREATE Other``.
 """
 
 from __future__ import annotations
@@ -1856,7 +1877,8 @@ class Case:
             if rng.random() < 0.1:
                 mode = mode.lower()
             silent = b'.SILENT' if rng.random() < 0.4 else b''
-            fl = self.gen_flags(mode.upper() == b'FLAGS',
+            fl = self.gen_flags(mode.upper() == b'FLAGS'
+                                or rng.random() < 0.08,
                                 0.4 if mode.upper() != b'-FLAGS' else 0.1)
             if fl and rng.random() < 0.15:
                 fls = b' '.join(fl)
